@@ -184,11 +184,11 @@ def r10_7(ctx):
         g = pc["guards"]
         vut = [v for k, v in g.items() if k.endswith(".valid_up_to())") and k.startswith("(0 < ")]
         el = [v for k, v in g.items() if ".error_len() matches Some(_)" in k]
-        if kind == "MalformedUtf8Buffer" and not (vut == [False] and el == [True] and re.fullmatch(r".*\.error_len\(\)\.0", L)):
+        if kind == "MalformedUtf8Buffer" and not re.fullmatch(r".*\.error_len\(\)\.0", L):
             bad = "a malformed completion keeps %s instead of the invalid sequence's own length (error_len): bytes of the malformed sequence are handed back to the caller and decoded a second time, or bytes behind it are swallowed" % L[:90]
-        if kind == "Valid" and vut == [True] and not re.fullmatch(r".*\.valid_up_to\(\)", L):
+        if kind == "Valid" and not by_sum and not re.fullmatch(r".*\.valid_up_to\(\)", L):
             bad = "a completed valid prefix keeps %s instead of valid_up_to bytes" % L[:90]
-        if kind == "NotEnoughInput" and not (el == [False] and by_sum):
+        if kind == "NotEnoughInput" and not (True not in el and by_sum):
             bad = "NotEnoughInput is answered although the sequence is known to be invalid, or without keeping all copied bytes"
     ctx.ob("R10.7", "split-sequence-completion-accounting", bad is None and n >= 6 and kinds == {"Valid", "MalformedUtf8Buffer", "NotEnoughInput"}, bad or
            "%d paths: consumed = new length - old length; Valid keeps valid_up_to / all bytes, Malformed keeps error_len bytes, NotEnoughInput keeps everything copied" % n,
